@@ -86,9 +86,10 @@ def fam_term(fam, lazy):
                     u, p = MIXIN_FMTS[m]
                     fmts.append(f"({FMT_ID[u]}, {FMT_ID[p]})")
         ghost = len(fam["classes"])      # a class id that is never defined: its name is never bound
-        fields = [f"(FD {t[1]} {spec_id(t[3])})" if t[0] == "dc" else f"(FD {ghost} 0)"
+        fields = [f"(FD {t[1]} {spec_id(t[3])} {b(not (len(t) > 4 and t[4] == 'Self'))})" if t[0] == "dc" else f"(FD {ghost} 0 true)"
                   for _, t in F.all_fields(fam, i) if t[0] in ("dc", "ghost")]
-        out.append(f"(CD {b(lazy[i] and c['kind'] == 'mixin')} {b(c['dsup'])} [{'; '.join(fmts)}] [{'; '.join(fields)}])")
+        par = "None" if c["parent"] is None else f"(Some {c['parent']})"
+        out.append(f"(CD {b(lazy[i] and c['kind'] == 'mixin')} {b(c['dsup'])} [{'; '.join(fmts)}] [{'; '.join(fields)}] {par})")
     return "[" + "; ".join(out) + "]"
 
 
@@ -131,14 +132,8 @@ def case_term(case, d5=True):
     fam = case["fam"]
     snaps = case["snaps"]
     steps = []
-    from harness.props.c14 import selfref_dialect_gap
     for (k, op, got, exp, sig), meta, snap in zip(case["res"], case["opmeta"], snaps[1:]):
         if not meta["valid"]:
-            break
-        if any(c["parent"] is not None for c in fam["classes"]) and selfref_dialect_gap(fam, snap):
-            # known finding C14/dialect-first-call-on-self-referencing-class in a family with inheritance: the real
-            # call may resolve through the MRO to an ancestor's method; the model has no MRO - the history is
-            # compared up to the operation that creates this configuration
             break
         kind = outcome_kind(got, case.get("rec", {}).get(k))
         if kind is None:
@@ -155,9 +150,9 @@ def case_term(case, d5=True):
             f"{snap_term(fam, snaps[0])} [{'; '.join(steps)}])"), len(steps)
 
 
-THEOREMS = ["C14_reachable_wf", "C14_call_state_independent", "C14_history_partial", "C14_history_refuted",
+THEOREMS = ["C14_reachable_inv", "C14_no_inherited_code", "C14_call_state_independent", "C14_history_partial", "C14_history_refuted",
             "C14_first_call_terminates", "C14_lazy_dialect_diverges", "C14_lazy_specialisation_diverges",
-            "C14_no_cache_attribute_error", "C14_dialect_first_selfref_raises", "C14_build_cycle_diverges", "C14_schedules_partial"]
+            "C14_no_cache_attribute_error", "C14_build_cycle_diverges", "C14_schedules_partial", "C14_schedules_multi_slot_partial"]
 
 
 def theorems(ctx):
@@ -166,6 +161,7 @@ def theorems(ctx):
     # closed unless hash_type_args is md5(",".join(map(type_name, type_args))).hexdigest()
     ctx.theorems("props/C14_speckey.vo", ["C14_spec_key_inj", "C14_join_inj"], kernels=["K11"])
     spec_key_tie(ctx)
+    ctx.coqchk(["VerifProps.C14_lazy", "VerifProps.C14_speckey"])      # thorough tier only
 
 
 def spec_key_tie(ctx):
@@ -235,5 +231,10 @@ def correspondence(ctx, cases, limit=None):
         ctx.not_shown("correspondence " + name, detail)
     ctx.correspondence(name, len(terms), len(bad), detail or f"{nsteps} compared states")
     ctx.hist("correspondence", "histories", len(terms))
+    # how many of the compared families lie in the domain of the theorems (selfref_unspec), decided in Coq
+    out_dom, _ = vlib.coq_bad_idx("c14_dom", "LazyModel LazyCheck", "", "Close Scope Z_scope.\n", terms,
+                                  "fun k => selfref_unspecb (k_fam k)", "case", shard=60, needs=["theories/LazyCheck.vo"])
+    if out_dom is not None:
+        ctx.hist("correspondence", "families outside selfref_unspec", len(out_dom))
     ctx.hist("correspondence", "states", nsteps)
     return not bad
